@@ -1,8 +1,9 @@
 //! C08, class `syntax`: programs over the sublanguage of Model/Syntax.lean (definitions, assignments and
-//! op-assignments over formulas whose operands are literals, names, calls, matrix literals, tuples, sets,
-//! subscripted names, parenthesised formulas, prefixed and transposed operands, and ranges).
+//! op-assignments over formulas whose operands are literals, names, calls with positional and named arguments, matrix
+//! literals, table literals, tuples, sets, records, maps, subscripted names, parenthesised formulas, prefixed and transposed operands,
+//! and ranges).
 //! Case: `fmt  syntax  <hex of the source>  <tokens>`; the tokens are what the model parses:
-//!   L<text> literal   I<name> name   ( ) [ ] { }   , ; _ (element separator) :   .. ..=
+//!   L<text> literal   I<name> name   ( ) [ ] { }   , ; _ (element separator) :   .. ..=   . (field access)   swz (the comma of a swizzle)   | (the bars of a table literal)
 //!   <operator name of c02::BINOPS>   neg (the character `-` before an operand)   not   tr
 //!   ~   :=   =   A<k> (op-assignment k: 0 += 1 -= 2 *= 3 /= 4 ^=)   K<text> (kind annotation)   NL
 //! Observation: as for formulas, with the s-expression of the whole program for T and U.
@@ -61,11 +62,19 @@ fn sx_sub(s: &Subscript) -> String {
   }
 }
 
-fn sx_subs(subs: &Vec<Subscript>) -> String {
-  // one bracket subscript: its entries; anything else is outside the modelled language
-  if subs.len() == 1 { if let Subscript::Bracket(v) = &subs[0] { return v.iter().map(sx_sub).collect::<Vec<_>>().join(" "); } }
-  format!("subs?{}", subs.len())
+fn sx_sel(s: &Subscript) -> String {
+  match s {
+    Subscript::Bracket(v) => format!("(br {})", v.iter().map(sx_sub).collect::<Vec<_>>().join(" ")),
+    Subscript::Brace(v) => format!("(bc {})", v.iter().map(sx_sub).collect::<Vec<_>>().join(" ")),
+    Subscript::Dot(id) => format!("(dot {})", id.to_string()),
+    Subscript::DotInt(n) => format!("(doti {})", toks(n.tokens())),
+    Subscript::Swizzle(ids) => format!("(swz {})", ids.iter().map(|i| i.to_string()).collect::<Vec<_>>().join(" ")),
+    other => format!("sel?{:?}", std::mem::discriminant(other)),
+  }
 }
+
+/// the chain of subscripts after a name, in source order
+fn sx_subs(subs: &Vec<Subscript>) -> String { subs.iter().map(sx_sel).collect::<Vec<_>>().join(" ") }
 
 fn sx_expr(e: &Expression) -> String {
   match e {
@@ -74,7 +83,7 @@ fn sx_expr(e: &Expression) -> String {
     Expression::Var(v) => if v.kind.is_some() { format!("var?{}", v.name.to_string()) } else { v.name.to_string() },
     Expression::Literal(l) => toks(l.tokens()),
     Expression::FunctionCall(c) => {
-      let args: Vec<String> = c.args.iter().map(|(n, e)| if n.is_some() { "named?".to_string() } else { sx_expr(e) }).collect();
+      let args: Vec<String> = c.args.iter().map(|(n, e)| match n { Some(n) => format!("(named {} {})", n.to_string(), sx_expr(e)), None => sx_expr(e) }).collect();
       if args.is_empty() { format!("(call {})", c.name.to_string()) } else { format!("(call {} {})", c.name.to_string(), args.join(" ")) }
     }
     Expression::Slice(s) => format!("(slice {} {})", s.name.to_string(), sx_subs(&s.subscript)),
@@ -85,6 +94,12 @@ fn sx_expr(e: &Expression) -> String {
     Expression::Structure(Structure::Tuple(t)) => if t.elements.is_empty() { "(tup)".to_string() } else { format!("(tup {})", t.elements.iter().map(sx_expr).collect::<Vec<_>>().join(" ")) },
     Expression::Structure(Structure::Set(s)) => if s.elements.is_empty() { "(set)".to_string() } else { format!("(set {})", s.elements.iter().map(sx_expr).collect::<Vec<_>>().join(" ")) },
     Expression::Structure(Structure::Empty) => "(set)".to_string(),
+    Expression::Structure(Structure::Record(r)) => format!("(rec {})", r.bindings.iter().map(|b| format!("(bind {} {} {})", b.name.to_string(),
+      match &b.kind { Some(k) => toks(k.tokens()), None => "-".to_string() }, sx_expr(&b.value))).collect::<Vec<_>>().join(" ")),
+    Expression::Structure(Structure::Table(t)) => format!("(tbl {} {})",
+      t.header.0.iter().map(|f| format!("(fld {} {})", f.name.to_string(), match &f.kind { Some(k) => toks(k.tokens()), None => "-".to_string() })).collect::<Vec<_>>().join(" "),
+      t.rows.iter().map(|r| format!("(row {})", r.columns.iter().map(|c| sx_expr(&c.element)).collect::<Vec<_>>().join(" "))).collect::<Vec<_>>().join(" ")),
+    Expression::Structure(Structure::Map(m)) => if m.elements.is_empty() { "(map)".to_string() } else { format!("(map {})", m.elements.iter().map(|e| format!("(kv {} {})", sx_expr(&e.key), sx_expr(&e.value))).collect::<Vec<_>>().join(" ")) },
     other => format!("expr?{:?}", std::mem::discriminant(other)),
   }
 }
@@ -124,7 +139,10 @@ pub fn tree_of(src: &str) -> String {
 
 // ---- generator ---------------------------------------------------------------------------------------
 
-struct G<'a> { rng: &'a mut Rng, toks: Vec<String>, text: String, sink: &'a mut Sink }
+/// `sp_ctx`: the expression being written is an element of a matrix row or a cell of a table row (what follows it is a
+/// space): no table literal at its top level, the real parser would read what follows as another row.
+/// `last_open`: the operand just written ends with a table literal: the next operator is not the subtraction sign.
+struct G<'a> { rng: &'a mut Rng, toks: Vec<String>, text: String, sink: &'a mut Sink, sp_ctx: bool, last_open: bool }
 
 const NAMES: &[&str] = &["a", "b", "c", "x", "y", "zz", "q1"];
 const FUNS: &[&str] = &["f", "g", "math/sin", "h2"];
@@ -135,22 +153,37 @@ impl<'a> G<'a> {
   fn put(&mut self, tok: &str, text: &str) { self.toks.push(tok.to_string()); self.text.push_str(text); }
 
   fn factor(&mut self, depth: u32) {
+    let sp = self.sp_ctx;
+    self.factor_in(depth);
+    self.sp_ctx = sp;
+  }
+
+  fn factor_in(&mut self, depth: u32) {
+    let sp = self.sp_ctx;
+    self.last_open = false;
     // prefix operators
     let pre = self.rng.below(10);
     if pre == 0 { self.put("neg", "-"); self.sink.hit("syntax:neg"); self.factor(depth); return; }
     if pre == 1 { self.put("not", "!"); self.sink.hit("syntax:not"); self.factor(depth); return; }
-    let choice = if depth == 0 { self.rng.below(2) } else { self.rng.below(12) };
+    let choice = if depth == 0 { self.rng.below(2) } else { self.rng.below(if sp { 15 } else { 16 }) };
+    self.sp_ctx = false;
+    let mut open = false;
     match choice {
       0 => { let l = *self.rng.pick(LITS); self.put(&format!("L{}", l), l); }
       1 | 2 | 3 => { let n = *self.rng.pick(NAMES); self.put(&format!("I{}", n), n); }
       4 => { // call
         let f = *self.rng.pick(FUNS); self.put(&format!("I{}", f), f); self.put("(", "(");
-        let n = self.rng.below(4); for i in 0..n { if i > 0 { self.put(",", ", "); } self.expr(depth - 1); }
+        let n = self.rng.below(4);
+        for i in 0..n {
+          if i > 0 { self.put(",", ", "); }
+          if self.rng.chance(1, 3) { let a = *self.rng.pick(NAMES); self.put(&format!("I{}", a), a); self.put(":", ": "); self.sink.hit("syntax:named-argument"); }
+          self.expr(depth - 1);
+        }
         self.put(")", ")"); self.sink.hit("syntax:call"); }
       5 | 6 => { // matrix
         self.put("[", "[");
         let rows = self.rng.below(4);
-        for r in 0..rows { if r > 0 { self.put(";", "; "); } let cols = 1 + self.rng.below(3); for c in 0..cols { if c > 0 { self.put("_", " "); } self.expr(depth - 1); } }
+        for r in 0..rows { if r > 0 { self.put(";", "; "); } let cols = 1 + self.rng.below(3); for c in 0..cols { if c > 0 { self.put("_", " "); } self.sp_ctx = true; self.expr(depth - 1); self.sp_ctx = false; } }
         self.put("]", "]"); self.sink.hit("syntax:matrix"); }
       7 => { // tuple: none, or two and more elements, or a single range
         self.put("(", "(");
@@ -160,24 +193,73 @@ impl<'a> G<'a> {
         self.put("{", "{"); let n = self.rng.below(4); for i in 0..n { if i > 0 { self.put(",", ", "); } self.expr(depth - 1); }
         self.put("}", "}"); self.sink.hit("syntax:set"); }
       9 | 10 => { // subscripted name
-        let n = *self.rng.pick(NAMES); self.put(&format!("I{}", n), n); self.subs(depth - 1); self.sink.hit("syntax:slice"); }
-      _ => { self.put("(", "("); self.formula(depth - 1); self.put(")", ")"); self.sink.hit("syntax:paren"); }
+        let n = *self.rng.pick(NAMES); self.put(&format!("I{}", n), n); self.sels(depth - 1); self.sink.hit("syntax:slice"); }
+      11 => { self.put("(", "("); self.formula(depth - 1); self.put(")", ")"); self.sink.hit("syntax:paren"); }
+      12 => { // record: bindings, some with a kind annotation
+        self.put("{", "{"); let n = 1 + self.rng.below(3);
+        for i in 0..n {
+          if i > 0 { self.put(",", ", "); }
+          let a = *self.rng.pick(NAMES); self.put(&format!("I{}", a), a);
+          if self.rng.chance(1, 3) { let k = *self.rng.pick(KINDS); self.put(&format!("K{}", hexs(k)), &format!("<{}>", k)); }
+          self.put(":", ": "); self.expr(depth - 1);
+        }
+        self.put("}", "}"); self.sink.hit("syntax:record"); }
+      15 => { // table literal: fields with kinds, one to three rows; rows of other lengths now and then
+        self.put("|", "|"); let cols = 1 + self.rng.below(3);
+        for c in 0..cols { if c > 0 { self.put("_", " "); } let a = *self.rng.pick(NAMES); self.put(&format!("I{}", a), a); let k = *self.rng.pick(KINDS); self.put(&format!("K{}", hexs(k)), &format!("<{}>", k)); }
+        self.put("|", "|");
+        let rows = 1 + self.rng.below(3);
+        for _ in 0..rows {
+          self.text.push(' ');
+          let n = if self.rng.chance(1, 6) { 1 + self.rng.below(3) } else { cols };
+          for c in 0..n { if c > 0 { self.put("_", " "); } self.sp_ctx = true; self.expr(depth - 1); self.sp_ctx = false; }
+          self.put("|", " |");
+        }
+        open = true; self.sink.hit("syntax:table"); }
+      _ => { // map: the empty map, or keys that are literals, names or any expression (all keys bare names: a record)
+        self.put("{", "{"); let n = self.rng.below(4);
+        if n == 0 { self.put(":", ":"); self.sink.hit("syntax:map-empty"); }
+        for i in 0..n {
+          if i > 0 { self.put(",", ", "); }
+          match self.rng.below(5) { 0 | 1 | 2 => { let l = *self.rng.pick(LITS); self.put(&format!("L{}", l), l); }, 3 => { let a = *self.rng.pick(NAMES); self.put(&format!("I{}", a), a); }, _ => { self.expr(depth - 1); } }
+          self.put(":", ": "); self.expr(depth - 1);
+        }
+        self.put("}", "}"); self.sink.hit("syntax:map"); }
     }
-    if self.rng.chance(1, 10) { self.put("tr", "'"); self.sink.hit("syntax:transpose"); }
+    if self.rng.chance(1, 10) { self.put("tr", "'"); self.sink.hit("syntax:transpose"); open = false; }
+    self.last_open = open;
   }
 
-  fn subs(&mut self, depth: u32) {
-    self.put("[", "[");
+  fn subs(&mut self, depth: u32, open: &str, close: &str) {
+    self.put(open, open);
     let n = 1 + self.rng.below(2);
     for i in 0..n { if i > 0 { self.put(",", ", "); } if self.rng.chance(1, 3) { self.put(":", ":"); } else { self.expr(depth); } }
-    self.put("]", "]");
+    self.put(close, close);
+  }
+
+  /// one to three subscripts after a name: brackets, braces, field access by name or number, swizzles
+  fn sels(&mut self, depth: u32) {
+    let n = 1 + self.rng.below(6) / 3 + self.rng.below(6) / 5;
+    if n > 1 { self.sink.hit("syntax:chained-subscripts"); }
+    for _ in 0..n {
+      match self.rng.below(8) {
+        0 | 1 | 2 => { self.subs(depth, "[", "]"); self.sink.hit("syntax:bracket-subscript"); }
+        3 => { self.subs(depth, "{", "}"); self.sink.hit("syntax:brace-subscript"); }
+        4 | 5 => { let f = *self.rng.pick(NAMES); self.put(".", "."); self.put(&format!("I{}", f), f); self.sink.hit("syntax:dot"); }
+        6 => { let l = *self.rng.pick(LITS); self.put(".", "."); self.put(&format!("L{}", l), l); self.sink.hit("syntax:dot-int"); }
+        _ => { let f = *self.rng.pick(NAMES); self.put(".", "."); self.put(&format!("I{}", f), f);
+               let k = 1 + self.rng.below(2); for _ in 0..k { let f = *self.rng.pick(NAMES); self.put("swz", ","); self.put(&format!("I{}", f), f); }
+               self.sink.hit("syntax:swizzle"); }
+      }
+    }
   }
 
   fn formula(&mut self, depth: u32) {
     self.factor(depth);
     let n = self.rng.below(3);
     for _ in 0..n {
-      let op = *self.rng.pick(&["add", "sub", "mul", "div", "pow", "lt", "eq", "and", "or", "mod"]);
+      let mut op = *self.rng.pick(&["add", "sub", "mul", "div", "pow", "lt", "eq", "and", "or", "mod"]);
+      if self.last_open && op == "sub" { op = "add"; }
       let sym = crate::c02::BINOPS.iter().find(|b| b.1 == op).unwrap().0;
       self.put(op, &format!(" {} ", sym));
       self.factor(depth);
@@ -203,12 +285,12 @@ impl<'a> G<'a> {
       }
       2 | 3 => {
         let n = *self.rng.pick(NAMES); self.put(&format!("I{}", n), n);
-        if self.rng.chance(1, 2) { self.subs(1); }
+        if self.rng.chance(1, 2) { self.sels(1); }
         self.put("=", " = "); self.sink.hit("syntax:assign");
       }
       _ => {
         let n = *self.rng.pick(NAMES); self.put(&format!("I{}", n), n);
-        if self.rng.chance(1, 2) { self.subs(1); }
+        if self.rng.chance(1, 2) { self.sels(1); }
         let k = self.rng.below(5) as usize; self.put(&format!("A{}", k), &format!(" {} ", OPA[k])); self.sink.hit("syntax:op-assign");
       }
     }
@@ -221,7 +303,7 @@ pub fn generate(seed: u64, count: usize, sink: &mut Sink) -> Vec<String> {
   let mut rng = Rng::new(seed ^ 0x5717A);
   let mut out = vec![];
   for _ in 0..count {
-    let mut g = G { rng: &mut rng, toks: vec![], text: String::new(), sink };
+    let mut g = G { rng: &mut rng, toks: vec![], text: String::new(), sink, sp_ctx: false, last_open: false };
     let n = 1 + g.rng.below(3);
     for i in 0..n { if i > 0 { g.put("NL", "\n"); } g.stmt(); }
     let (toks, text) = (g.toks.join(" "), g.text.clone());
